@@ -12,7 +12,8 @@ Inductive c12case :=
          (obs : list rres) (log : list change) (final : list (string * client))
 | KDefault (name : string) (r : request) (obs : request)
 | KDefaultStream (name : string) (recv_ok : bool) (r : request) (obs : request)
-| KDefaultSeq (name : string) (steps : list dstep) (obs : list mvalue).
+| KDefaultSeq (name : string) (steps : list dstep) (obs : list mvalue)
+| KStreamSession (name : string) (rs : list recvd) (obs : list mvalue).
 
 (* ---------- model side ---------- *)
 Definition pcs_results (l : list pc) : option (list rres) :=
@@ -35,6 +36,7 @@ Definition agrees (c : c12case) : bool :=
   | KDefault name r obs => request_eqb obs (unary_interceptor name r)
   | KDefaultStream name ok r obs => request_eqb obs (stream_recv name ok r)
   | KDefaultSeq name steps obs => list_eqb mvalue_eqb obs (run_seq name steps)
+  | KStreamSession name rs obs => list_eqb mvalue_eqb obs (stream_session name rs)
   end.
 
 (* ---------- property side ---------- *)
@@ -192,6 +194,9 @@ Definition C12_ok (c : c12case) : bool :=
   | KDefault name r obs => default_ok name true r obs
   | KDefaultStream name ok r obs => default_ok name ok r obs
   | KDefaultSeq name steps obs => seq_ok name steps obs
+  (* every message received on the stream is judged on its own, first or not *)
+  | KStreamSession name rs obs =>
+      seq_ok name (map (fun r => let '(ok, t, v) := r in ((if ok : bool then 1 else 2), t, v)) rs) obs
   end.
 
 Definition C12_guard (c : c12case) : bool := true.
